@@ -76,6 +76,17 @@ CLAIMS = {
         "denotes the kernel it names.",
         "DESIGN.md section 3, C05",
     ),
+    "C08": (
+        "support comparison of partially evaluated FFNS and FFN0 operators by (coupling weight, physical channel); log-level contiguity of Asy classes",
+        "The asymptotic limit itself (difference vanishing like a power of m^2/Q^2) is numerical and NOT decided. Decided is a necessary structural "
+        "clause: for kinds x heavyness x NC/CC x NfFF x PTO 0..2, order by order and parton row by parton row, the partially evaluated FFNS and "
+        "FFN0 operators carry exactly the same (coupling weight, physical channel) pairs - the channel being the class that produced each kernel, "
+        "classified by yadism's own name rules - except the frozen power-suppressed case F_L at LO; and at each order the Asy{N^k}LL classes of a "
+        "channel provide every power of the collinear logarithm. An asymptotic term without massive counterpart can never cancel; a massive "
+        "term without asymptotic partner does not vanish.",
+        "Trusted: CPython ast; yadsa partial evaluator with opaque weights and kernel provenance; F_L(LO, massive) is proportional to m^2/Q^2.",
+        "DESIGN.md section 3, C08",
+    ),
     "C09": (
         "semantic folding of the threshold predicate under supplied orderings; closure probing; atom inspection on partially evaluated operators",
         "Decides: is_below_pair_threshold is the predicate Q2 (1-z)/z <= 4 m^2 (concrete and symbolic orderings below/at/above; every comparison "
